@@ -16,7 +16,7 @@ func init() {
 	run.Register(&run.Check{
 		ID:    "C14",
 		Level: "exploration",
-		Rule: "cases: a NetworkPolicy-only base world and one single-step edit of a kind drawn by index (add rule in a governed direction; add policy on already-governed pods; add policy on ungoverned pods; five re-spellings: matchLabels<->single-value In, range<->two adjacent ranges, CIDR<->its two halves, policy<->rules split over two policies with the same selector, explicit<->defaulted policyTypes); " +
+		Rule: "cases: a NetworkPolicy-only base world and one single-step edit of a kind drawn by index (add rule in a governed direction; add policy on already-governed pods; add policy on ungoverned pods; five re-spellings: matchLabels<->single-value In, range<->two adjacent ranges, CIDR<->its two halves, policy<->rules split over two policies with the same selector (a third of these over rules that cover every protocol on every port only together), explicit<->defaulted policyTypes); " +
 			"both worlds are analysed by the real library and the two reports compared point-wise (all workload pairs, all address atoms of both reports, 3x65535 bitsets) for the inclusion / equality / locality the statement demands - no semantic model of the policies is involved, only the selector matcher deciding which pods the new policy selects; " +
 			"non-trivial = the base report has a partial or missing connection for some pair (policies bite) ; effective = the edit could be applied",
 		Assumptions:       []string{"which workloads a new policy selects, and whether they were governed before, is decided by our own selector matcher and the policyTypes defaulting rule", "no named port can reach an address in these worlds (the documented fatal-error deviation is excluded by construction)"},
@@ -317,6 +317,11 @@ func applyC14Edit(g *rng.R, w0 *world.World, cfg world.Cfg, kind int) (*world.Wo
 		}
 	case 6: // one policy <-> same rules split over two policies with the same selector
 		order := g.Intn(len(w.NetPols))
+		for i := range w.NetPols {
+			if w.NetPols[i].Name == "allproto" { // the stratum of runC14: rules that only TOGETHER cover every protocol on every port
+				order = i
+			}
+		}
 		for k := 0; k < len(w.NetPols); k++ {
 			np := &w.NetPols[(order+k)%len(w.NetPols)]
 			if len(np.Ingress)+len(np.Egress) < 2 {
@@ -334,6 +339,10 @@ func applyC14Edit(g *rng.R, w0 *world.World, cfg world.Cfg, kind int) (*world.Wo
 			}
 			ia, ib := splitRules(g, np.Ingress)
 			ea, eb := splitRules(g, np.Egress)
+			if np.Name == "allproto" {
+				ia, ib = np.Ingress[:len(np.Ingress)/2], np.Ingress[len(np.Ingress)/2:]
+				ea, eb = np.Egress[:len(np.Egress)/2], np.Egress[len(np.Egress)/2:]
+			}
 			np.Ingress, second.Ingress = ia, ib
 			np.Egress, second.Egress = ea, eb
 			np.HasTypes, np.PolicyTypes = true, types
@@ -393,6 +402,29 @@ func runC14(c *run.Ctx) {
 	cfg.MaxWorkloads = 5
 	w := world.GenNPWorld(g, cfg)
 	kind := c.Idx % 8
+	if kind == 6 && g.P(0.3) {
+		// two rules towards everybody that only TOGETHER cover every protocol on every port (TCP+UDP in one, SCTP in the other; or
+		// TCP 1-65535 + UDP in one, SCTP in the other), in one direction of one workload whose partners are restricted by other policies
+		x := rng.Pick(g, w.Workloads)
+		all := []world.NPPeer{{NsSel: &world.Sel{}}}
+		first := []world.NPPort{{Proto: "TCP"}, {Proto: "UDP"}}
+		if g.P(0.4) {
+			first = []world.NPPort{{Proto: "TCP", Port: 1, EndPort: 65535}, {Proto: "UDP"}}
+		}
+		rules := []world.NPRule{{Peers: all, Ports: first}, {Peers: all, Ports: []world.NPPort{{Proto: "SCTP"}}}}
+		if g.P(0.5) {
+			rules[0], rules[1] = rules[1], rules[0]
+		}
+		np := world.NetPol{Ns: x.Ns, Name: "allproto", PodSel: *world.SelFor(g, x.Labels), HasTypes: true}
+		if g.P(0.6) {
+			np.Egress, np.PolicyTypes = rules, []string{"Egress"}
+		} else {
+			np.Ingress, np.PolicyTypes = rules, []string{"Ingress"}
+		}
+		w.NetPols = append(w.NetPols, np)
+		w.AddFeature("rulesCoveringAllProtocolsOnlyTogether")
+		r.Ev("split_policy_rules_covering_all_protocols_only_together", 1)
+	}
 	w2, name, expect, added := applyC14Edit(g, w, cfg, kind)
 	if w2 == nil {
 		r.Ev("edit_not_applicable", 1)
